@@ -40,7 +40,7 @@ fn emit_focus_case(rng: &mut Prng, emit: &mut dyn FnMut(Value)) {
             r = gen_rule(rng, &id);
         }
         let o = r.as_object_mut().unwrap();
-        let keep: Vec<String> = o.keys().filter(|k| ["id", "rank", "markers", "path"].contains(&k.as_str()) || focus.contains(&k.as_str())).cloned().collect();
+        let keep: Vec<String> = o.keys().filter(|k| ["id", "rank", "markers", "path", "wdstyle"].contains(&k.as_str()) || focus.contains(&k.as_str())).cloned().collect();
         o.retain(|k, _| keep.contains(k));
         if focus != ["path"] {
             o.insert("path".into(), json!("/a"));
@@ -115,6 +115,10 @@ fn gen(args: &Args, emit: &mut dyn FnMut(Value)) {
                 emit(json!({"cfg": cfg, "rules": rules, "reqs": reqs, "exh": true}));
             }
         }
+    }
+    // diff-directed block (only when the library differs from the baseline; see router_gen::hint_block)
+    for (cfg, rules, reqs) in hint_block(&mut rng, (args.n / 4).clamp(40, 2000)) {
+        emit(json!({"cfg": cfg, "rules": rules, "reqs": reqs}));
     }
     for i in 0..args.n {
         if i % 5 == 4 {
